@@ -191,6 +191,10 @@ class ModelFittingDataTree(ProblemSingleObjective):
                     cols=cols,
                     readout_times=times,
                 )
+                self._configure_weights(
+                    weights=weights,
+                    weights_from_file=weights_from_file,
+                )
 
             else:
                 # Get targets from file(s)
@@ -458,10 +462,7 @@ class ModelFittingDataTree(ProblemSingleObjective):
 
                 if self.weighting is not None:
                     weighting = np.full(
-                        shape=(
-                            processor.detector.geometry.row,
-                            processor.detector.geometry.col,
-                        ),
+                        shape=target_data.shape,
                         fill_value=self.weighting[processor_id],
                     )
                 elif self.weighting_from_file is not None:
